@@ -359,6 +359,7 @@ def run(chk):
     _cstr_rule(chk, prog)
     from rules import c17_boot
     c17_boot.run(chk)
+    _noassert_rule(chk, prog)
 
 
 UNBOUNDED_CSTR = ("strchr", "strrchr", "strlen", "strcmp", "strstr", "strcpy", "strcat", "strdup", "strpbrk", "strspn", "strcspn",
@@ -412,3 +413,37 @@ def _cstr_rule(chk, prog):
                               "the data ends the scan early (and always `matches` in strchr), and a buffer without terminator is read past "
                               "its end" % (c.text()[:60], bad.text()[:30]))
     chk.floor(rule, 30, n)
+
+
+def _noassert_rule(chk, prog):
+    """janet_assert ends the process (JANET_EXIT -> abort).  In the library units it may mark code that cannot be
+    reached, but a condition computed from the arguments is an input-triggered abort that `try` cannot catch - and
+    with floating-point operands such a `cannot happen` is simply wrong: (range 0 0.9 0.3) has 0 + 3 * 0.3 < 0.9."""
+    rule = "C17-NOASSERT"
+    chk.rule(rule, "in the string / buffer / array / tuple / core library units no process-terminating assertion has a condition computed at run time")
+    n = 0
+    for tun in ARITY_UNITS:
+        tu = prog.tus.get(tun)
+        if tu is None:
+            continue
+        for fn in tu.funcs.values():
+            for x in fn.nodes:
+                if x.k != "if" or "janet_assert" not in x.macro_names():
+                    continue
+                if x.parent is not None and "janet_assert" in x.parent.macro_names() and x.parent.k == "if":
+                    continue
+                n += 1
+                chk.instance(rule)
+                chk.analysed(fn)
+                c = strip_casts(x.kids[0])
+                while c.k == "un" and c.op == "!":
+                    c = strip_casts(c.kids[0])
+                while c.k == "paren":
+                    c = strip_casts(c.kids[0])
+                if c.k == "int":
+                    chk.ok(rule, "%s: `janet_assert(%s, ...)` marks unreachable code" % (fn.name, c.text()))
+                else:
+                    chk.violation(rule, tun, fn.name, "assert:" + c.text()[:30].replace(" ", ""), x.loc,
+                                  "`janet_assert(%s, ...)` in %s tests a value computed from the call's arguments: when it fails the "
+                                  "process aborts and no `try` can intercept it" % (c.text()[:60], fn.name))
+    chk.floor(rule, 1, n)
